@@ -54,6 +54,22 @@ def import_rp():
     finally:
         ru.get_version = real_get_version
 
+    # radical.pilot imports many plugins lazily (factories): pull them in now
+    # so that patch() sees all modules.  popen.py installs signal handlers on
+    # import - put the defaults back.
+    import pkgutil
+    import signal
+    skip = ('flux', 'dragon', 'worker_mpi', 'yarn', 'pmgr.launching')
+    for m in pkgutil.walk_packages(rp.__path__, 'radical.pilot.'):
+        if any(x in m.name for x in skip):
+            continue
+        try:
+            importlib.import_module(m.name)
+        except BaseException:                                      # noqa
+            pass
+    signal.signal(signal.SIGTERM, signal.SIG_DFL)
+    signal.signal(signal.SIGINT,  signal.default_int_handler)
+
     src = os.path.realpath(rp.__file__)
     if not src.startswith(os.path.realpath(REPO_SRC) + os.sep):
         raise RuntimeError('radical.pilot imported from %s, not from %s'
@@ -132,3 +148,32 @@ def patch(ru_overrides=None, os_faulty=()):
     _patched = rup
     rup.simos = simos
     return rup
+
+
+# ------------------------------------------------------------------------------
+# process-global state of radical.pilot which one universe could leak into the
+# next one in the same OS process (class level mutable defaults of the
+# FastTypedDict classes are shared between instances; module level registries)
+#
+_snap = None
+
+
+def reset_globals():
+    import copy
+    global _snap
+    mods = rp_modules()
+    if _snap is None:
+        _snap = dict()
+        for name, mod in mods.items():
+            for k, v in list(mod.__dict__.items()):
+                if isinstance(v, type) and isinstance(
+                        v.__dict__.get('_defaults'), dict):
+                    _snap[v] = copy.deepcopy(v.__dict__['_defaults'])
+    for cls, dflt in _snap.items():
+        cls._defaults = copy.deepcopy(dflt)
+    comp = mods.get('radical.pilot.utils.component')
+    if comp is not None:
+        del comp._components[:]
+    popen = mods.get('radical.pilot.agent.executing.popen')
+    if popen is not None:
+        del popen._pids[:]
